@@ -3,6 +3,7 @@ package main
 import (
 	"context"
 	"errors"
+	"fmt"
 	"io"
 	"sync"
 	"sync/atomic"
@@ -123,7 +124,10 @@ func bootMode() aurora.Model {
 	return aurora.NewModel().SetMode(aurora.FullNode).SetMode(aurora.BootNode)
 }
 
-var registerOnce sync.Once
+var (
+	registerOnce sync.Once
+	sharedDB     *shed.DB
+)
 
 type env struct {
 	kad  *kademlia.Kad
@@ -134,11 +138,18 @@ type env struct {
 }
 
 func newEnv(base boson.Address, binMax int, bootnode bool, static []boson.Address, discStarted, callback bool) (*env, error) {
-	registerOnce.Do(func() { shed.Register("leveldb", sldb.Driver{}) })
-	db, err := shed.NewDB("", &shed.Options{Driver: "leveldb"})
-	if err != nil {
-		return nil, err
+	// One in-memory metrics DB for the whole run: opening a leveldb costs a large zeroed
+	// write buffer, and nothing is ever flushed to it (the manage loop is not started and
+	// Close is not called), so every collector starts empty.
+	var err error
+	registerOnce.Do(func() {
+		shed.Register("leveldb", sldb.Driver{})
+		sharedDB, err = shed.NewDB("", &shed.Options{Driver: "leveldb"})
+	})
+	if err != nil || sharedDB == nil {
+		return nil, fmt.Errorf("metrics db: %v", err)
 	}
+	db := sharedDB
 	e := &env{p2p: &p2pStub{callback: callback}, disc: &discStub{started: discStarted}, ab: &abStub{}, db: db}
 	mode := fullMode()
 	if bootnode {
@@ -156,5 +167,4 @@ func newEnv(base boson.Address, binMax int, bootnode bool, static []boson.Addres
 
 func (e *env) close() {
 	e.kad.VerifConnShutdown()
-	_ = e.db.Close()
 }
